@@ -41,7 +41,7 @@ const ns = "did:sidetree"
 
 // Step is one action of a schedule.
 type Step struct {
-	Action  string `json:"action"` // add | monitor-tick | timeout-tick
+	Action  string `json:"action"` // add | monitor-tick | timeout-tick | upgrade (the current protocol version advances)
 	Suffix  string `json:"suffix,omitempty"`
 	Version uint64 `json:"version,omitempty"`
 	Expired bool   `json:"expired,omitempty"`
@@ -62,6 +62,18 @@ type Case struct {
 	Max     uint   `json:"maxOperationCount"`
 	Handler string `json:"handler"` // stub | real
 	Steps   []Step `json:"steps"`
+	// Maxes: maximum operation count per protocol version (empty = Max for all); Current: index of the version that
+	// is current at the start (-1 or absent with empty Maxes = the latest, as before)
+	Maxes   []uint `json:"maxOperationCounts,omitempty"`
+	Current int    `json:"current,omitempty"`
+}
+
+// maxFor is the maximum operation count of version index i.
+func (c *Case) maxFor(i int) uint {
+	if len(c.Maxes) == len(versions) {
+		return c.Maxes[i]
+	}
+	return c.Max
 }
 
 func init() {
@@ -98,7 +110,8 @@ type world struct {
 	c       *Case
 	w       *batch.Writer
 	q       *opqueue.MemQueue
-	pc      *wire.Client
+	pc      *switchClient
+	cur     int // index of the current protocol version
 	cas     *wire.MemCAS
 	queue   []*mop          // model of the pending queue
 	byReq   map[string]*mop // request bytes -> op
@@ -131,6 +144,15 @@ func (w *world) fail(format string, args ...interface{}) {
 		w.viol = fmt.Sprintf(format, args...)
 	}
 }
+
+// switchClient is a protocol client whose current version is set by the schedule (a protocol upgrade happening
+// while the writer runs); Get(version) is unchanged.
+type switchClient struct {
+	*wire.Client
+	w *world
+}
+
+func (c *switchClient) Current() (protocol.Version, error) { return c.Client.Versions[c.w.cur], nil }
 
 type ctx struct{ w *world }
 
@@ -208,7 +230,7 @@ type handler struct {
 
 func (h handler) PrepareTxnFiles(ops []*operation.QueuedOperation) (*protocol.AnchoringInfo, error) {
 	w := h.w
-	max := int(w.c.Max)
+	max := int(w.c.maxFor(w.cur)) // the cutter sizes batches by the protocol version that is current when it cuts
 	if len(ops) == 0 {
 		w.fail("operation handler called with an empty batch")
 		return nil, errors.New("empty batch")
@@ -325,16 +347,20 @@ func newWorld(c *Case) *world {
 	w := &world{c: c, q: &opqueue.MemQueue{}, byReq: map[string]*mop{}, anchor: map[string]int{}, dropped: map[string]bool{}, features: map[string]bool{},
 		realHandler: map[uint64]protocol.OperationHandler{}, pool: map[string]*suffixKeys{}, cas: wire.NewMemCAS()}
 	var vs []protocol.Version
-	for _, g := range versions {
+	w.cur = len(versions) - 1
+	if len(c.Maxes) == len(versions) && c.Current >= 0 && c.Current < len(versions) {
+		w.cur = c.Current
+	}
+	for i, g := range versions {
 		p := wire.BaseProtocol()
 		p.GenesisTime = g
-		p.MaxOperationCount = c.Max
+		p.MaxOperationCount = c.maxFor(i)
 		v := wire.Build(p, wire.Deps{CAS: w.cas})
 		w.realHandler[g] = v.Handler
 		v.Handler = handler{w: w, version: g}
 		vs = append(vs, v)
 	}
-	w.pc = wire.NewClient(vs...)
+	w.pc = &switchClient{Client: wire.NewClient(vs...), w: w}
 	bw, err := batch.New(ns, ctx{w}, batch.WithBatchTimeout(time.Hour), batch.WithMonitorInterval(time.Hour))
 	if err != nil {
 		panic(err)
@@ -446,6 +472,11 @@ func evalCase(c *Case) (string, string, map[string]bool) {
 			w.tick(false, s.Plans)
 		case "timeout-tick":
 			w.tick(true, s.Plans)
+		case "upgrade":
+			if w.cur < len(versions)-1 {
+				w.cur++
+				w.features["upgrade-while-running"] = true
+			}
 		}
 		w.check(i)
 		if w.viol != "" {
@@ -502,15 +533,25 @@ func drawAdd(t *rapid.T, curVersion *int) Step {
 }
 
 func TestWriterStateMachine(t *testing.T) {
-	ev.Rule(chkSM, "rapid schedules of 5-40 steps over a real batch.Writer (never started; one processing step at a time through the verif hook), real BatchCutter and MemQueue, maxOperationCount 1-4, protocol versions {0, 10, 20}: Add(operation for suffix a..e under a version, optionally flagged expired), monitor tick, timeout tick, each tick with a fault plan per cut batch (handler/CAS failure - for the real OperationHandler the k-th CAS write -, anchor-write failure) and submissions arriving while the batch is in flight; handler = deterministic stub of the first-per-suffix / deferred / expired contract, or the real txnprovider.OperationHandler over a fault-injecting CAS; oracle (driven by observations - every PrepareTxnFiles call reveals the cut batch): prefix of the model queue, one version, size <= max, smaller only on a timeout tick or at a version boundary; after every step the real queue equals the model (failed batch back at the head in order, in-flight additions behind it, deferred operations at the tail) and accepted = queue + anchored + expired with no operation anchored twice; at quiescence every accepted non-expired operation is in exactly one anchored batch; non-trivial = a failed batch followed by a successful one, or a deferred operation, or a version boundary inside the queue")
+	ev.Rule(chkSM, "rapid schedules of 5-40 steps over a real batch.Writer (never started; one processing step at a time through the verif hook), real BatchCutter and MemQueue, maxOperationCount 1-4 (in half of the schedules a different one per version, with the current version advancing while the writer runs: 'upgrade' steps), protocol versions {0, 10, 20}: Add(operation for suffix a..e under a version, optionally flagged expired), monitor tick, timeout tick, each tick with a fault plan per cut batch (handler/CAS failure - for the real OperationHandler the k-th CAS write -, anchor-write failure) and submissions arriving while the batch is in flight; handler = deterministic stub of the first-per-suffix / deferred / expired contract, or the real txnprovider.OperationHandler over a fault-injecting CAS; oracle (driven by observations - every PrepareTxnFiles call reveals the cut batch): prefix of the model queue, one version, size <= the maximum of the version current at the cut, smaller only on a timeout tick or at a version boundary; after every step the real queue equals the model (failed batch back at the head in order, in-flight additions behind it, deferred operations at the tail) and accepted = queue + anchored + expired with no operation anchored twice; at quiescence every accepted non-expired operation is in exactly one anchored batch; non-trivial = a failed batch followed by a successful one, or a deferred operation, or a version boundary inside the queue")
 	ev.Rapid(t, chkSM, 400, 8000, func(t *rapid.T) {
 		c := &Case{Max: uint(rapid.IntRange(1, 4).Draw(t, "max")), Handler: rapid.SampledFrom([]string{"stub", "stub", "real"}).Draw(t, "handler")}
 		cur := 0
+		upgrades := rapid.Bool().Draw(t, "versionsDiffer")
+		if upgrades {
+			// each version has its own maximum and the current version advances while the writer runs
+			c.Maxes = []uint{uint(rapid.IntRange(1, 4).Draw(t, "max0")), uint(rapid.IntRange(1, 4).Draw(t, "max1")), uint(rapid.IntRange(1, 4).Draw(t, "max2"))}
+			c.Current = rapid.IntRange(0, 1).Draw(t, "current")
+		}
 		n := rapid.IntRange(5, 40).Draw(t, "steps")
 		for i := 0; i < n; i++ {
 			switch rapid.IntRange(0, 9).Draw(t, "action") {
 			case 0, 1, 2, 3, 4, 5:
+				before := cur
 				c.Steps = append(c.Steps, drawAdd(t, &cur))
+				if upgrades && (cur != before || rapid.IntRange(0, 11).Draw(t, "upgrade") == 0) {
+					c.Steps = append(c.Steps, Step{Action: "upgrade"})
+				}
 			default:
 				s := Step{Action: "monitor-tick"}
 				if rapid.Bool().Draw(t, "force") {
